@@ -382,6 +382,15 @@ func initBtreeModels() {
 	extModelDoc[btPkg+"Ascend"] = "calls the iterator on all stored items in ascending key order until it returns false"
 	extModels[btPkg+"Ascend"] = ascend(false)
 
+	// isZeroTime(t): the same uninterpreted function the deterministic-pure model of (time.Time).IsZero uses
+	specBuiltins["isZeroTime"] = func(env *SpecEnv, n SCall) TV {
+		e := env.e
+		v := env.eval(n.Args[0])
+		terms, sorts := e.leaves(v.T, v.V)
+		f := "|ext." + sanitize("(time.Time).IsZero") + "|"
+		e.decl(fmt.Sprintf("(declare-fun %s (%s) Bool)", f, strings.Join(sorts, " ")))
+		return TV{S("%s", app(f, terms...)), boolT}
+	}
 	// spec vocabulary
 	specBuiltins["bthas"] = func(env *SpecEnv, n SCall) TV {
 		t := env.refOf(env.eval(n.Args[0]))
